@@ -127,18 +127,18 @@ def runResp (cfg : RespCfg) : List Bytes → RespState → Bytes → List String
 
 /-- the response protocol through the normalised `respSys`; the real parser's habit of swallowing the
     rest of the completing delivery into `trailer` (declared-length framing only) is re-attached here -/
-def runRespSys : List Bytes → RespState → Bytes → List String → String
+def runRespSys (hl : Option Nat) : List Bytes → RespState → Bytes → List String → String
   | [], s, _, acc => joinAcc acc ++ " | " ++ respFields s
   | d :: ds, s, pending, acc =>
     let buf := pending ++ d
-    match respSys.parse s buf with
+    match (respSys hl).parse s buf with
     | .fail f => joinAcc (failStr f :: acc)
     | .ok .complete st n =>
       let fixed := match st.phase with | .fixedBody _ => true | _ => false
       let consumed := if fixed then buf.length else n
       let trailing := if fixed then buf.drop n else []
       joinAcc (s!"C,{consumed}" :: acc) ++ " | " ++ respFields st trailing
-    | .ok .incomplete st n => runRespSys ds st (buf.drop n) (s!"I,{n}" :: acc)
+    | .ok .incomplete st n => runRespSys hl ds st (buf.drop n) (s!"I,{n}" :: acc)
 
 def parseHeaders (s : String) : Option (List Header) :=
   if s = "." then some [] else
@@ -160,8 +160,8 @@ def reqOp (cfg : ReqCfg) (ds : List Bytes) : String × Option (ReqState rhymuriI
 
 def respOp (cfg : RespCfg) (ds : List Bytes) : String × Option RespState :=
   let (b, rs, st) := runResp cfg ds Response.new [] [] []
-  if cfg.tree.repaired && cfg.hl.isNone then
-    let a := runRespSys ds Response.new [] []
+  if cfg.tree.repaired then
+    let a := runRespSys cfg.hl ds Response.new [] []
     if a = b then (b ++ " #r=" ++ showReserves rs, st) else ("MODEL-INCONSISTENT " ++ a ++ " <> " ++ b, none)
   else (b ++ " #r=" ++ showReserves rs, st)
 
